@@ -1140,6 +1140,23 @@ Proof.
   - eexists. split; [vm_compute; reflexivity | split; reflexivity].
 Qed.
 
+(* the integration branches of pull request 1 have disappeared (deleted by hand, or removed after a partial queue
+   merge) while its integration pull requests 2 and 3 are still OPEN: the next evaluation - here through an event
+   on child 3, then a commit event on the source tip - re-creates the branches and REUSES the two pull requests *)
+Definition c19_w_gone : world :=
+  mkWorld (prs c19_w_ex) [Src "bugfix/TEST-1"; Src "feature/TEST-2"].
+
+Example c19_ex_recreate :
+  c19_Inv c19_w_gone /\
+  exists w', run c19_cfg_on c19_w_gone [EvalPR 3 (c19_ctx OCreated); EvalCommit [Src "bugfix/TEST-1"] (c19_ctx OCreated)]
+             = Ok w' /\
+             prs w' = prs c19_w_gone /\
+             branches w' = [Src "bugfix/TEST-1"; Src "feature/TEST-2"; W "5.1" "bugfix/TEST-1"; W "10.0" "bugfix/TEST-1"].
+Proof.
+  split; [apply c19_inv_b_sound; vm_compute; reflexivity|].
+  eexists. split; [vm_compute; reflexivity | split; reflexivity].
+Qed.
+
 (* the gate of check_integration_branches: with both settings off, no option and no author approval, an
    evaluation of a pull request with several targets cannot get to the creation point *)
 Example c19_ex_gate :
